@@ -11,6 +11,9 @@ Threads: only the log-collector thread exists; its protocol is C25. Hash seeds:
     selection (find, next, last, nth, take, skip, position, early break/return, scalar
     last-writer assignment) over such an iteration whose selected element flows into the
     construction of a warning, or that iterates a container holding warnings
+    or a sequence accumulated in hash order (collected vector, string built with +=, pushes)
+    that flows - inside the function - into the CONTENT of a single warning (constructor /
+    builder argument, field assignment)
  R3 (notes, never an alarm) every other order-sensitive site (sink is the IR, an analysis
     state, or the unsorted log messages) is listed with its classification
 """
@@ -200,6 +203,8 @@ def run(run):
                     effects.append(x["k"].lower())
                 if x.get("k") in ("Assign",) and T.peel(x["l"]).get("k") == "Var":
                     effects.append("assign")
+                if x.get("k") == "AssignOp" and T.root_var_id(x["l"]) is not None:
+                    effects.append("accumulate")
             bound = {i for i, _, _ in T.pat_bindings(pat)} | {n2["id"] for n2 in T.walk(body) if n2.get("k") == "LetStmt" for n2 in [T.pat_peel(n2["p"])] if n2.get("k") == "Bind"}
             mo = mutates_outer(F, body, bound)
             if mo:
@@ -265,6 +270,95 @@ def run(run):
                         return True
         return False
 
+    def accumulators(F, f, c, pm):
+        """locals that accumulate the elements of the iteration IN ORDER: the let-bound result of an order-preserving collect,
+        or outer variables mutated in the loop body by push / push_str / += / non-keyed &mut calls"""
+        seeds = set()
+        # collected sequence bound by a let
+        cur = c
+        chain_top = c
+        while True:
+            p = pm.get(id(cur))
+            while p is not None and p.get("k") in T.WRAPPERS:
+                cur = p
+                p = pm.get(id(cur))
+            if p is not None and p.get("k") == "Call" and p.get("a") and any(x is cur for x in T.walk(p["a"][0])):
+                cur = p
+                chain_top = p
+                continue
+            break
+        holder = pm.get(id(chain_top))
+        while holder is not None and holder.get("k") in T.WRAPPERS:
+            holder = pm.get(id(holder))
+        if holder is not None and holder.get("k") == "LetStmt" and not any(k in F.ty(chain_top) for k in ("BTreeMap", "BTreeSet", "HashMap", "HashSet")):
+            seeds |= {i for i, _, _ in T.pat_bindings(holder["p"])}
+        # loop body accumulations
+        q = c
+        for _ in range(6):
+            p = pm.get(id(q))
+            if p is None:
+                break
+            if p.get("k") == "Match" and p.get("ms", "").startswith("ForLoopDesugar"):
+                fl = T.for_loop(p)
+                if fl:
+                    pat, it, body = fl
+                    bound = {i for i, _, _ in T.pat_bindings(pat)}
+                    for x in T.walk(body):
+                        if x.get("k") == "LetStmt":
+                            bound |= {i for i, _, _ in T.pat_bindings(x["p"])}
+                    for x in T.walk(body):
+                        if x.get("k") == "AssignOp":
+                            r = T.root_var_id(x["l"])
+                            if r is not None and r not in bound:
+                                seeds.add(r)
+                        if x.get("k") == "Call" and "f" in x and x.get("a") and x["n"] in ("push", "push_str", "push_back", "push_front", "extend", "append", "write_str", "write_fmt", "add_assign", "extend_from_slice", "insert_str"):
+                            r = T.root_var_id(x["a"][0])
+                            if r is not None and r not in bound:
+                                seeds.add(r)
+                break
+            q = p
+        return seeds
+
+    def flows_into_a_warning(F, f, seeds):
+        """forward taint inside the function: does an order-dependent value become part of the CONTENT of a single warning?
+        (collections OF warnings are not sinks: their order is repaired by the final sort)"""
+        tainted = set(seeds)
+        nodes = list(T.walk_fn(F, f))
+
+        def mentions(n):
+            return any(y.get("k") in ("Var", "Upvar") and y.get("id") in tainted for y in T.walk(n))
+        for _ in range(6):
+            before = len(tainted)
+            for n in nodes:
+                k = n.get("k")
+                if k == "LetStmt" and "i" in n and mentions(n["i"]):
+                    tainted |= {i for i, _, _ in T.pat_bindings(n["p"])}
+                elif k in ("Assign", "AssignOp") and mentions(n["r"]):
+                    r = T.root_var_id(n["l"])
+                    if r is not None:
+                        tainted.add(r)
+                elif k == "Call" and "f" in n and n.get("a"):
+                    a0 = n["a"][0]
+                    if a0.get("k") == "Borrow" and a0.get("m") and any(mentions(a) for a in n["a"][1:]):
+                        r = T.root_var_id(a0)
+                        if r is not None:
+                            tainted.add(r)
+            if len(tainted) == before:
+                break
+        hits = []
+        for n in nodes:
+            k = n.get("k")
+            if k == "Call" and "f" in n:
+                is_builder = ("utils::log::CweWarning" in n["f"] or "utils::log::CweWarning" in n.get("is", "")) and n["n"] in ("new", "tids", "addresses", "symbols", "other")
+                if (is_builder or n["n"].startswith("generate_cwe_warning")) and any(mentions(a) for a in n["a"]):
+                    hits.append((n, "argument of %s" % n["n"]))
+            if k == "Assign" and mentions(n["r"]):
+                if any(y.get("k") == "Field" and y.get("adt", "").endswith("utils::log::CweWarning") for y in T.walk(n["l"])):
+                    hits.append((n, "assigned to a field of a CweWarning"))
+            if k == "Adt" and n["adt"].endswith("utils::log::CweWarning") and any(mentions(e) for e in n["fs"].values()):
+                hits.append((n, "field of a constructed CweWarning"))
+        return hits
+
     nsens = 0
     counters = {}
     for crate, F, f, c, kind, rty, pm in sites:
@@ -281,6 +375,11 @@ def run(run):
             run.violated("R1", key, "a selection is made in hash order (%s) among elements that %s: WHICH warning is reported depends on the per-process hash seed (the final sort cannot repair a selection)" % (
                 detail, "are warnings/log messages" if holds_warn else "flow into the construction of warnings (%s)" % sorted(set(emit))), site)
             continue
+        if cls == "sensitive":
+            hits = flows_into_a_warning(F, f, accumulators(F, f, c, pm))
+            if hits:
+                run.violated("R1", key, "a sequence built in hash order (%s) becomes part of the content of a warning (%s at %s): the text/fields of that warning differ from run to run, which the final sort of the warning list cannot repair" % (detail, hits[0][1], F.loc(hits[0][0])), site)
+                continue
         if cls == "insensitive":
             run.holds("R1", key, detail, site)
         else:
